@@ -38,15 +38,23 @@ pub fn describe(doc: &Doc) -> String {
     format!("{:?}", doc)
 }
 
+thread_local! {
+    /// how the per-link writers are ended: 0 = `finish()` on every link, 1 = dropped without
+    /// `finish()` (the call is optional: only `LinkFormatWrite::finish` reports the final result),
+    /// 2 = alternating
+    pub static FINISH_STYLE: std::cell::Cell<u8> = const { std::cell::Cell::new(0) };
+}
+
 /// Write `doc` to `sink`.  Returns (per-link finish results with the sink call count at that
 /// moment, final result).
 pub fn write_doc<W: fmt::Write + CallCount>(doc: &Doc, newlines: bool, sink: &mut W) -> (Vec<(usize, bool)>, bool) {
+    let style = FINISH_STYLE.with(|c| c.get());
     // the writer borrows the sink mutably, so call counts are read through a raw cell
     let counter = sink.counter();
     let mut per_link = Vec::new();
     let mut w = LinkFormatWrite::new(sink);
     w.set_add_newlines(newlines);
-    for link in doc {
+    for (li, link) in doc.iter().enumerate() {
         let mut a = w.link(&link.target);
         for (k, v) in &link.attrs {
             a = match v {
@@ -56,8 +64,12 @@ pub fn write_doc<W: fmt::Write + CallCount>(doc: &Doc, newlines: bool, sink: &mu
                 AttrKind::U16(n) => a.attr_u16(k, *n),
             };
         }
-        let ok = a.finish().is_ok();
-        per_link.push((counter.get(), ok));
+        if style == 0 || (style == 2 && li % 2 == 1) {
+            let ok = a.finish().is_ok();
+            per_link.push((counter.get(), ok));
+        } else {
+            let _ = a;
+        }
     }
     let fin = w.finish().is_ok();
     (per_link, fin)
@@ -452,6 +464,33 @@ pub fn run_c16(ctx: &mut Ctx) {
             }
         }
     }
+    {
+        // white space of every kind (ASCII and not) at the start / end / both ends of values that are otherwise letters and digits
+        let ws = ['\u{a0}', '\u{85}', '\u{1680}', '\u{2000}', '\u{2003}', '\u{200a}', '\u{2028}', '\u{2029}', '\u{202f}', '\u{205f}', '\u{3000}', ' ', '\t', '\n', '\r', '\u{b}', '\u{c}', '\u{feff}', '\u{200b}'];
+        let mut di = 0u64;
+        for w in ws {
+            for core in ["", "20", "\u{6e29}\u{5ea6}", "caf\u{e9}", "a b"] {
+                for shape in 0..3 {
+                    di += 1;
+                    if di % nshards != shard || (level == 0 && di % 5 != 0) {
+                        continue;
+                    }
+                    let v = match shape {
+                        0 => format!("{}{}", w, core),
+                        1 => format!("{}{}", core, w),
+                        _ => format!("{}{}{}", w, core, w),
+                    };
+                    let doc = vec![
+                        Link { target: "/w".into(), attrs: vec![("t".into(), AttrKind::Plain(v.clone())), ("n".into(), AttrKind::U16(1)), ("q".into(), AttrKind::Quoted(v.clone()))] },
+                        Link { target: format!("/{}", v), attrs: vec![("l".into(), AttrKind::Plain(v.clone()))] },
+                    ];
+                    c16_one(rep, &doc, shape % 2 == 0);
+                    rep.distinct(fnv(v.as_bytes()));
+                    rep.count("edge_white_space_documents");
+                }
+            }
+        }
+    }
     for _ in 0..budget {
         let doc = gen_doc(&mut r, 0);
         let nl = r.bool();
@@ -753,6 +792,37 @@ pub fn run_c17(ctx: &mut Ctx) {
         rep.distinct(fnv(doc.as_bytes()));
         rep.count("dictionary_strings");
     }
+    // long inputs: depth of any kind (recursion per escape, per attribute, per link ...) must not be
+    // bounded by the stack.  One structural unit repeated 200 000 times (2 000 000 at the thorough level)
+    if shard == 0 && level > 0 {
+        let reps = if level >= 2 { 2_000_000 } else { 200_000 };
+        let units: [(&str, &str, &str); 12] = [
+            ("</x>;title=\"", "\\\"", "\""),   // quoted-pairs inside one quoted value
+            ("</x>;title=\"", "\\\\", "\""),
+            ("</x>;title=\"", "\\", ""),
+            ("</x>;title=\"", "a", ""),           // an unterminated long value
+            ("</x>", ";a=b", ""),                  // attributes
+            ("</x>", ";a", ""),
+            ("", "</x>,", "</y>"),                 // links
+            ("", "<", ""),
+            ("</x>;k=", "\"\"", ""),
+            ("</x>;k=", "=", ""),
+            ("", ",", ""),
+            ("</x>;t=\"", "\\a\"\"", "\""),
+        ];
+        for (pre, unit, post) in units {
+            let mut doc = String::with_capacity(pre.len() + unit.len() * reps + post.len());
+            doc.push_str(pre);
+            for _ in 0..reps {
+                doc.push_str(unit);
+            }
+            doc.push_str(post);
+            set_case_str(&format!("C17 long document: {:?} + {:?} x {} + {:?}", pre, unit, reps, post));
+            c17_one(rep, &doc, &mut stats);
+            rep.count("long_documents");
+            rep.distinct(fnv(unit.as_bytes()) ^ 0x10D0C);
+        }
+    }
     // every prefix (on char boundaries) of well-formed documents
     let ndocs = if level == 0 { 1 } else { (budget / 20).max(5) };
     for _ in 0..ndocs {
@@ -787,7 +857,17 @@ pub fn run_c17(ctx: &mut Ctx) {
 // C18
 
 fn c18_doc(rep: &mut Report, doc: &Doc, stats: &mut (u64, u64), kstep: usize) {
+    let nattrs: usize = doc.iter().map(|l| l.attrs.len()).sum();
     for newlines in [false, true] {
+        // cycles through the three styles from one (document, newline) run to the next
+        let style = STYLE_SHIFT.with(|c| {
+            let v = c.get();
+            c.set((v + 1) % 3);
+            v
+        });
+        let _ = nattrs;
+        FINISH_STYLE.with(|c| c.set(style));
+        rep.bucket(&format!("per_link_finish_style_{}", ["always", "never", "alternating"][style as usize]));
         // fault-free run
         set_case_str(&format!("C18 {:?} nl={}", doc, newlines));
         let mut clean = FaultSink::new(FailMode::Never);
@@ -872,6 +952,11 @@ fn c18_doc(rep: &mut Report, doc: &Doc, stats: &mut (u64, u64), kstep: usize) {
         }
         rep.sample_every(20011, || format!("doc {} newlines={} -> {} sink calls, every one failed once and persistently", describe(doc), newlines, n));
     }
+    FINISH_STYLE.with(|c| c.set(0));
+}
+
+thread_local! {
+    static STYLE_SHIFT: std::cell::Cell<u8> = const { std::cell::Cell::new(0) };
 }
 
 pub fn run_c18(ctx: &mut Ctx) {
@@ -886,7 +971,10 @@ pub fn run_c18(ctx: &mut Ctx) {
             Link { target: "/b".into(), attrs: vec![("registration-lifetime-seconds".into(), AttrKind::U32(4_000_000_000)), ("k01234567890123456789".into(), AttrKind::U32(7)), ("a-sixteen-bit-value-with-a-long-name".into(), AttrKind::U16(65535))] },
             Link { target: "".into(), attrs: vec![("k".into(), AttrKind::Plain("".into())), ("rel".into(), AttrKind::Plain("a".into())), ("rel".into(), AttrKind::Quoted("b".into()))] },
         ];
-        c18_doc(rep, &doc, &mut stats, 1);
+        // (two newline settings per call and three styles: three calls cover every combination)
+        for _ in 0..3 {
+            c18_doc(rep, &doc, &mut stats, 1);
+        }
         rep.distinct(fnv(describe(&doc).as_bytes()));
     }
     // numeric attributes: registry numbers and boundaries under the keys that usually carry them,
@@ -980,4 +1068,6 @@ pub fn run_c18(ctx: &mut Ctx) {
     rep.floor("fault_at_separator", 1);
     rep.floor("fault_at_text", 1);
     rep.floor("fault_at_bracket", 1);
+    rep.floor("per_link_finish_style_never", 1);
+    rep.floor("per_link_finish_style_always", 1);
 }
